@@ -2,6 +2,7 @@
 import ast
 import keyword
 
+from json_to_models.models.base import prepare_label
 from .. import real, stages
 from . import common
 
@@ -93,6 +94,13 @@ def check_case(inputs, cmps, job, registry):
     tree_shaped = common.is_tree(reg, root_backrefs=True)
     if job["layout"] == "nested" and not tree_shaped:
         return None, "nested-non-tree"
+    from ..gen import fold
+    for m in reg.models:
+        folded = [fold(k) for k in m.type]
+        if len(set(folded)) != len(folded):
+            # keys of one (merged) class that coincide after the harness's own case/punctuation folding: outside the
+            # documented key domain (C11's F1); decided without the code under test
+            return None, "keys-fold-together"
     hit = check_text(text, reg, job, tree_shaped)
     if hit:
         hit["text"] = text[:4000]
@@ -113,6 +121,13 @@ def falsify(ctx):
             ks = rng.sample(["größe", "адрес", "naïve", "straße", "données", "Ünit"], k=3)
             inputs = [("Root", [{ks[0]: {"x": 1}, ks[1]: {"y": [{ks[2]: {"z": "s"}}]}, "n": 1}])]
             job.update({"convertUnicode": True, "structureReuse": True})
+            job.pop("renderFirst", None)
+        if i >= len(focus) and i % 15 == 11:
+            # long Literal annotations whose values hold spaces and hyphens, under every framework that emits them
+            from .. import gen as _gen
+            inputs = [("Root", _gen.gen_long_literal(rng))]
+            cmps = []
+            job.update({"maxLit": rng.choice([10, 16, 20]), "fw": rng.choice(["base", "dataclasses", "pydantic", "sqlmodel"])})
             job.pop("renderFirst", None)
         try:
             hit, skip = check_case(inputs, cmps, job, registry)
